@@ -78,6 +78,7 @@ TagShapes == {"none", "one", "three", "emptyval", "two-tags"}
 Tampers == {"none", "content", "tagvalue", "tagadd", "kind", "created_at", "pubkey",
             "id-bit", "sig-bit", "sig-other", "id-other",
             "content-reid", "pubkey-reid",   \* forgeries with a recomputed (consistent) id and the stale signature
+            "offcurve-reid",                 \* the same with a public key that is not a point of the curve
             "id-case", "sig-case"}           \* one hex letter of the id / the signature in upper case (one bit of the text)
 
 \* The last two leave the decoded bytes unchanged: Event.Verify decodes the hex text, so they are
@@ -86,7 +87,7 @@ Tampers == {"none", "content", "tagvalue", "tagadd", "kind", "created_at", "pubk
 Lexical == {"id-case", "sig-case"}
 
 \* what the tamper does to the two checks (id = hash of canonical form, sig over id)
-IdOK(t)  == t \in {"none", "sig-bit", "sig-other", "content-reid", "pubkey-reid", "sig-case"}
+IdOK(t)  == t \in {"none", "sig-bit", "sig-other", "content-reid", "pubkey-reid", "offcurve-reid", "sig-case"}
 SigOK(t) == t \in {"none", "content", "tagvalue", "tagadd", "kind", "created_at"}   \* sig still signs the (stale) id
 Authentic(t) == IdOK(t) /\ SigOK(t)
 OnlyUntamperedAuthentic == \A t \in Tampers : Authentic(t) <=> t = "none"
